@@ -247,6 +247,9 @@ func check(t vkit.TB, c Case) {
 		vkit.Case("known:"+f.key, false, "")
 		return
 	}
+	if class == "" { // excluded by construction / skipped (already counted)
+		return
+	}
 	vkit.Case(class, nt, sig)
 }
 
